@@ -1,3 +1,4 @@
+import Secp.Proofs.DriversWrap
 import Secp.Proofs.ScalarMul
 import Secp.Proofs.ScalarSmall
 import Secp.Proofs.IRHelpers
@@ -124,5 +125,31 @@ theorem alias_safe : (scalarKernels.all fun k => k.aliasSafe) = true := by decid
 -- non-vacuity
 example : (⟨1, 0, 0, 0, 0, 0, 0, 0⟩ : L8).Canon := by
   refine ⟨by simp [L8.U32], ?_⟩; simp [L8.val]; decide
+
+/-! ### The non-kernel wrapper methods (tools/gotr pass T8)
+
+`Mul`, `Add`, `Negate`, `Square`, `SquareVal`, `Bytes`, `SetByteSlice`, `InverseValNonConst`, `InverseNonConst` are not limb
+kernels (they delegate to the kernels above); they are REGENERATED at value level on every run and proved equal to the
+primitives every model uses for them. -/
+
+theorem mul_wrapper (s v : Nat) : Secp.Gen.Drivers.scalarMul s v = Secp.Spec.nmul s v := Secp.Proofs.DriversWrap.scalarMul_regenerated s v
+theorem add_wrapper (s v : Nat) : Secp.Gen.Drivers.scalarAdd s v = Secp.Spec.nadd s v := Secp.Proofs.DriversWrap.scalarAdd_regenerated s v
+theorem negate_wrapper (s : Nat) : Secp.Gen.Drivers.scalarNegate s = Secp.Spec.nneg s := Secp.Proofs.DriversWrap.scalarNegate_regenerated s
+theorem square_wrapper (s : Nat) : Secp.Gen.Drivers.scalarSquare s = Secp.Spec.nmul s s := Secp.Proofs.DriversWrap.scalarSquare_regenerated s
+theorem squareVal_wrapper (s v : Nat) : Secp.Gen.Drivers.scalarSquareVal s v = Secp.Spec.nmul v v := Secp.Proofs.DriversWrap.scalarSquareVal_regenerated s v
+theorem bytes_wrapper (s : Nat) : Secp.Gen.Drivers.scalarBytes s = Secp.Spec.be32 s := Secp.Proofs.DriversWrap.scalarBytes_regenerated s
+
+/-- `ModNScalar.SetByteSlice` (truncate to 32 bytes, left-pad, load, overflow flag) regenerated = the model's
+    `scalarSetByteSlice` for every byte string shorter than 2^32 (the uint32 conversion of the length) -/
+theorem setByteSlice_wrapper (s : Nat) (b : Secp.Spec.Bytes) (hb : b.length < 2^32) :
+    Secp.Gen.Drivers.scalarSetByteSliceGen s b = ((Secp.Model.scalarSetByteSlice b).2, (Secp.Model.scalarSetByteSlice b).1) :=
+  Secp.Proofs.DriversWrap.scalarSetByteSlice_regenerated s b hb
+
+/-- `InverseValNonConst` (through math/big's ModInverse for the prime modulus N) regenerated = `ninv` -/
+theorem inverseValNonConst_wrapper (s v : Nat) (hv : v < Secp.Spec.N) :
+    Secp.Gen.Drivers.scalarInverseValNonConst s v = Secp.Spec.ninv v :=
+  Secp.Proofs.DriversWrap.scalarInverseValNonConst_regenerated s v hv
+theorem inverseNonConst_wrapper (s : Nat) : Secp.Gen.Drivers.scalarInverseNonConst s = Secp.Spec.ninv s :=
+  Secp.Proofs.DriversWrap.scalarInverseNonConst_regenerated s
 
 end Secp.Props.C06
